@@ -106,7 +106,7 @@ def main():
             res["suite_wall_s"] = round(time.time() - t0)
             res["suite_tail"] = out.strip().splitlines()[-1] if out.strip() else ""
         if a.in_worktree:
-            code, out = sh([os.path.join(VERIF, "check"), "all", "--no-write", "--repo", wt], cwd=VERIF)
+            code, out = sh([os.path.join(VERIF, "check"), "all", "--no-write", "--jobs", "8", "--repo", wt], cwd=VERIF)
             res.update(parse_checks(out, a.prop))
         sh(["git", "apply", "-R", patch], cwd=wt)
         code, out = run_demo(wt, demo_wt)
@@ -124,7 +124,7 @@ def main():
         try:
             code, out = sh(["git", "-C", "/repo", "apply", patch])
             assert code == 0, out
-            code, out = sh([os.path.join(VERIF, "check"), "all", "--no-write"], cwd=VERIF)
+            code, out = sh([os.path.join(VERIF, "check"), "all", "--no-write", "--jobs", "8"], cwd=VERIF)
             res.update(parse_checks(out, a.prop))
         finally:
             sh(["git", "-C", "/repo", "checkout", "--", "."])
